@@ -19,6 +19,7 @@ LEVEL_TEXT = ('static inductive invariant over all mutator paths (effect counter
               'use-site domination for every peek/pop in the library. Heap order itself is trusted to heapq.')
 LEVEL_NOTE = 'assumes priorities are mutually comparable (heappush does not raise); heapq semantics trusted'
 LEVEL_TEXT_ADD = ' Also: per-insertion items may override equality only by identity of wrapped objects.'
+LEVEL_TEXT_ADD += ' Rounds e-f: a loop over a live queue only reads (draining by running uses pop).'
 LEVEL_TEXT = (globals().get('LEVEL_TEXT') or EXPLANATION) + LEVEL_TEXT_ADD
 TECHNIQUE = 'static analysis: effect-counter abstract interpretation over enumerated paths (inductive invariant) + ownership/use-site rules'
 
